@@ -1469,6 +1469,10 @@ class Builtins:
             return IntV(max(a.v for a in args))
         return Unknown(self.I.run.new_tag("max"))
 
+    def x_staticmethod(self, args, kwargs, node, fr) -> Value:
+        # staticmethod(f) as a class-level value: f itself, never bound to an instance (FuncV values are not bound on lookup)
+        return args[0]
+
     def x_object(self, args, kwargs, node, fr) -> Value:
         # a bare object(): only its identity matters (sentinels); equal to, and identical with, itself alone
         return Unknown(self.I.run.new_tag("object"), {"truthy": True, "not_none": True, "sentinel": True})
